@@ -1,10 +1,18 @@
+pub mod c01;
 pub mod c07;
 pub mod c08;
+pub mod semantic;
+pub mod semprops;
 
 use crate::runner::Property;
 
 pub fn by_id(id: &str) -> Option<Box<dyn Property>> {
     match id {
+        "C01" => Some(Box::new(c01::C01)),
+        "C02" => Some(Box::new(semprops::C02)),
+        "C03" => Some(Box::new(semprops::C03)),
+        "C04" => Some(Box::new(semprops::C04)),
+        "C05" => Some(Box::new(semprops::C05)),
         "C07" => Some(Box::new(c07::C07)),
         "C08" => Some(Box::new(c08::C08)),
         _ => None,
